@@ -186,11 +186,12 @@ mutual
       | .out r => (s1, r)
       | .next => specFor fuel ctx s1 n body
 
-  def specCase : Nat → Ctx → St → List (Bool × List Item × CaseCont) → Bool → Bool → St × Res × Bool
+  def specCase : Nat → Ctx → St → List (Bool × Bool × List Item × CaseCont) → Bool → Bool → St × Res × Bool
     | 0, _, s, _, _, u => (s, .outOfFuel, u)
     | _+1, _, s, [], _, u => (s, .continue_, u)
-    | fuel+1, ctx, s, (m, body, k) :: rest, falling, u =>
-      if !falling && !m then specCase fuel ctx s rest false u
+    | fuel+1, ctx, s, (m, e, body, k) :: rest, falling, u =>
+      if !falling && e then (s, expansionErrorS ctx s, u)
+      else if !falling && !m then specCase fuel ctx s rest false u
       else
         let (s1, r) := specList fuel ctx s body
         match r with
